@@ -85,7 +85,7 @@ struct Sys {
   // ---- op alphabet (fixed size; an op whose slot does not exist is a no-op and is merged away) ----
   // 0..7 alloc sizes, 8..11 release(i), 12..27 shrink(i, mode), 28..31 write+shrink(i), 32 reset soft, 33 reset hard,
   // 34..36 alloc sizes at the block-growth steps (the first block of a pool is 2*B, every further block doubles)
-  static constexpr int kNumOps = 37;
+  static constexpr int kNumOps = 38;   // 37: alloc(3B/8) - larger than a B/4 hole, fits a hole merged with a shrunk tail
   static bool is_alloc(int op) { return op < 8 || op >= 34; }
   static int alloc_index(int op) { return op < 8 ? op : 8 + (op - 34); }
   int num_ops() const { return cfg.ops.empty() ? 34 : (int)cfg.ops.size(); }
@@ -102,6 +102,7 @@ struct Sys {
       case 8: return 2 * B - pad;        // exactly fills the first (doubled) block
       case 9: return 2 * B;              // equals the regular size of the first block: padding no longer fits
       case 10: return 4 * B;             // equals the regular size of the second block
+      case 11: return 3 * B / 8;         // fits B/4 + B/8 (a hole merged with the tail a shrink gives back), not B/4
       default: return (size_t(1) << 32) + 100;   // too large; its low 32 bits alone would be a valid request
     }
   }
@@ -437,7 +438,17 @@ int main(int argc, char** argv) {
     }
     cfg.fill_pattern = 0xA1B2C3D4u;
     Sys s(cfg); std::string why, names;
-    for (int op : h) { names += s.raw_name(op) + ";"; if (!s.apply_raw(op, why)) { c.violation("replay", why + " after " + names, c.replay_text); break; } }
+    for (int op : h) {
+      names += s.raw_name(op) + ";";
+      bool ok = s.apply_raw(op, why);
+      if (getenv("C09_TRACE")) {
+        std::vector<BlockInfo> bs = s.blocks();
+        fprintf(stderr, "%-22s blocks=%zu reserved=%zu |", s.raw_name(op).c_str(), bs.size(), (size_t)s.alloc->statistics().reserved_size());
+        for (auto& l : s.live) { int bi = s.block_of(bs, l.span.rx()); fprintf(stderr, " b%d+%zu:%zu", bi, bi >= 0 ? size_t((uint8_t*)l.span.rx() - bs[bi].rx) : 0, l.span.size()); }
+        fprintf(stderr, "\n");
+      }
+      if (!ok) { c.violation("replay", why + " after " + names, c.replay_text); break; }
+    }
     return vh::finish();
   }
   // work plan: list of (configuration, depth, root split R); every unit (cfg, root shard) is one BFS
@@ -480,6 +491,19 @@ int main(int argc, char** argv) {
       x.prefix = {3, 3, 4}; g.push_back(x);          // alloc(B/2), alloc(B/2), alloc(B-pad): the first block is exactly full
       x.prefix = {3, 4, 3}; g.push_back(x);
       if (c.thorough()) { x.prefix = {4, 4, 5}; g.push_back(x); x.prefix = {2, 2, 3, 4}; x.max_live = 5; g.push_back(x); }
+    }
+    if (c.opt("depth").empty()) phases.push_back(Phase{g, c.thorough() ? 4 : 3, 1});
+  }
+  {
+    // search from a state whose cached search window is stale-prone: block #1 full, two B/4 holes around a live span, a failed
+    // scan for B/2 (caches "largest free = B/4", block clean) that opened block #2, block #2 filled exactly.  From here:
+    // shrinks of the span between the holes, releases, and requests that only fit a hole merged with a shrunk tail.
+    std::vector<Cfg> g;
+    for (uint32_t opt : {0u, (uint32_t)kFill}) {
+      Cfg x; x.fill_pattern = 0xA1B2C3D4u; x.options = opt; x.granularity = 64; x.max_live = 10;
+      x.prefix = {4, 2, 2, 2, 2, 9, 10, 3, 4, 5, 5, 3};   // block #2 (4B) ends up exactly full: pad + B/2 + (B-pad) + B + B + B/2
+      x.ops = {37, 2, 0, 8, 9, 10, 12 + 4 * 1 + 2, 12 + 4 * 1 + 1, 12 + 4 * 0 + 2, 12 + 4 * 2 + 2, 3};
+      g.push_back(x);
     }
     if (c.opt("depth").empty()) phases.push_back(Phase{g, c.thorough() ? 4 : 3, 1});
   }
